@@ -3,8 +3,10 @@ package main
 import (
 	"encoding/json"
 	"fmt"
+	"regexp"
 	"sort"
 	"strings"
+	"verifh/sim"
 )
 
 type c13state struct {
@@ -234,7 +236,19 @@ func (o *oracles) checkC13(rep reporter, r *reply) {
 		res.Check("idempotent")
 		res.Probe("identical-configuration-reapplied")
 		if after != o.c13.before {
-			rep("idempotent", "idempotent "+w.plan.Policy, "re-applying an unchanged configuration changed resources:\n%s", firstDiffLines(o.c13.before, after))
+			ctx := ""
+			if w.plan.Policy == "topology-aware" && sim.LogSeen(markReinstateFailed) {
+				ctx = " after-failed-verbatim-reinstate"
+			} else if w.plan.Policy == "topology-aware" && sameButMemory(o.c13.before, after) {
+				// F24: reinstating releases the memory of every grant and asks
+				// for it again; zones (and mems) can come out differently
+				ctx = " memory-zones-only"
+			} else if w.plan.Policy == "topology-aware" && w.failedReqInc {
+				// F6: what an earlier failed request left pending is delivered
+				// by the push that ends the (unchanged) reconfiguration
+				ctx = " after-failed-request"
+			}
+			rep("idempotent", "idempotent "+w.plan.Policy+ctx, "re-applying an unchanged configuration changed resources:\n%s", firstDiffLines(o.c13.before, after))
 		}
 	default:
 		// accepted change
@@ -277,4 +291,11 @@ func (o *oracles) checkC13(rep reporter, r *reply) {
 		o.invariants("C13", r)
 		o.checkToldEqualsCache(o.sub("C13", "C05"), "reconfigure")
 	}
+}
+
+var memAttrs = regexp.MustCompile(`mems="[^"]*"|memory\([^)]*\)|memory set="[^"]*"`)
+
+// sameButMemory: the two dumps differ only in memory nodes / memory accounting.
+func sameButMemory(a, b string) bool {
+	return a != b && memAttrs.ReplaceAllString(a, "") == memAttrs.ReplaceAllString(b, "")
 }
